@@ -37,6 +37,15 @@ def vector_sets(n, field, kind, rank, tag):
         A = A + 1j * rng.integers(-3, 4, (n, rank))
     while np.linalg.matrix_rank(A) < rank:
         A = A + np.eye(n)[:, :rank]
+    if kind == "near":
+        # biorthonormal pair whose left vectors differ from the right ones by 1e-7 only (weakly non-Hermitian
+        # problem): the object must still denote 1 - R L†, not 1 - R R†
+        Rn, _ = np.linalg.qr(A)
+        Zn = rng.integers(-2, 3, (n, rank)).astype(float)
+        if field != "real":
+            Zn = Zn + 1j * rng.integers(-2, 3, (n, rank))
+        Zn = Zn - Rn @ (Rn.conj().T @ Zn)
+        return Rn, Rn + 1e-7 * Zn
     if kind == "raw":  # L = R not normalised: 1 - R R† is not a projector, but still the operator the object denotes
         return A / 2, None
     if kind == "generic":  # unrelated R and L (L† R != 1)
@@ -87,7 +96,7 @@ def cases(tier, seed):
     out = []
     for n in ns:
         for field in ("real", "complex", "real-complexL", "complex-realL"):
-            for kind in ("orth", "orth_same", "biorth", "raw", "generic"):
+            for kind in ("orth", "orth_same", "biorth", "raw", "generic", "near"):
                 if field in ("real-complexL", "complex-realL") and kind not in ("biorth", "generic"):
                     continue
                 for rank in ((1, 2) if tier == "quick" else (1, 2, 3)):
@@ -212,7 +221,7 @@ def run_case(case):
             cmp("P @ csr @ V", op @ Asp @ xs["mat"], D @ Asp.toarray() @ xs["mat"])
             cmp("V† @ csr @ P", xs["mat"].conj().T @ Asp @ op, xs["mat"].conj().T @ Asp.toarray() @ D)
             # idempotency when L† R = 1
-            if case["kind"] in ("orth", "orth_same", "biorth"):
+            if case["kind"] in ("orth", "orth_same", "biorth", "near"):
                 cmp("P @ (P @ x)", op @ (op @ xs["mat"]), D @ xs["mat"])
             else:
                 cmp("P @ (P @ x)", op @ (op @ xs["mat"]), D @ D @ xs["mat"])
